@@ -241,6 +241,10 @@ func runC19(c *Ctx) {
 		}
 	}
 
+	// ---- R6 ------------------------------------------------------------------------------------
+	c.Rule("R6", "side-condition of the store-integrity classification of GetQueuedInfractionParameters' error in BeginBlock: a schedule entry exists only together with queued parameters (pending changes are removed as a pair, created as a pair, and a cancelling request removes both)", 18)
+	infractionPairing(c)
+
 	// ---- R5 ------------------------------------------------------------------------------------
 	c.Rule("R5", "chain-id / initial-height consistency (makes the launch fallback's SetConsumerInitializationParameters infallible): after every run-time SetConsumerChainId, a success return is reached only through a validation of the initial height against the new chain id (SetConsumerInitializationParameters, which validates, or ValidateInitialHeight on the stored height)", 2)
 	sites, _ := c.Callers("pk.Keeper.SetConsumerChainId")
